@@ -452,6 +452,9 @@ Qed.
 End DecodeLoop.
 
 (* ---------- the codecs of a well-formed schema never answer "Unsupported": serialize, size, deserialize, factory ---------- *)
+(* The proof does not restate the bodies of Layout's mutual block (they are being refactored): each function is unfolded one step by cbn,
+   the recursive occurrences are folded back, and the resulting term is walked (bind / match / let) down to the member loops, the recursive
+   calls at a lower fuel, and helper constants, which are unfolded on sight. *)
 Section Codec.
 Variable OP : ops.
 Variable tm : list decl.
@@ -460,194 +463,118 @@ Hypothesis Hwf : wf_schema tm = true.
    value is not an int / byte string); admissible values never reach it -- kept as an explicit premise *)
 Hypothesis Hkey : forall fuel t v, nu (key OP tm fuel t v).
 
-Definition Rd (k : nat) : rec_ops :=
-  {| enc_t := enc OP tm k; size_t := size OP tm k; dec_t := dec OP tm k; decf_t := decf OP tm k; key_t := key OP tm k |}.
-
-Lemma enc_S k t v : enc OP tm (S k) t v =
-  match v with
-  | VStruct cls _ => match lookup_struct tm cls with Some s => enc_struct OP tm k s v | None => Crash "AttributeError" end
-  | _ =>
-    match lookup tm t with
-    | Some (DAlias _ (LInt i) _) => match v with VInt z => py_to_bytes (Z.to_nat (it_size i)) (negb (it_unsigned i)) z | _ => Crash "AttributeError" end
-    | Some (DAlias _ (LBuffer _) _) => match v with VBytes b => Ok b | _ => Crash "AttributeError" end
-    | Some (DEnum _ b _ _ _) => match v with VInt z => py_to_bytes (Z.to_nat (it_size b)) (negb (it_unsigned b)) z | _ => Crash "AttributeError" end
-    | _ => Crash "AttributeError"
-    end
-  end.
-Proof. reflexivity. Qed.
-
-Lemma size_S k t v : size OP tm (S k) t v =
-  match v with
-  | VStruct cls _ => match lookup_struct tm cls with Some s => size_struct OP tm k s v | None => Crash "AttributeError" end
-  | VNull => Crash "AttributeError"
-  | _ =>
-    match lookup tm t with
-    | Some (DAlias _ (LInt i) _) => Ok (it_size i)
-    | Some (DAlias _ (LBuffer n) _) => Ok n
-    | Some (DEnum _ b _ _ _) => Ok (it_size b)
-    | _ => Crash "AttributeError"
-    end
-  end.
-Proof. reflexivity. Qed.
-
-Lemma enc_struct_S k s v : enc_struct OP tm (S k) s v =
-  bind (size_struct OP tm k s v) (fun total =>
-  match base_struct tm s with
-  | Some b =>
-    bind (serialize_fields_go OP tm (Rd k) b (struct_fields_nc s) total v true (struct_fields_nc b)) (fun hb =>
-    bind (serialize_fields_go OP tm (Rd k) s (struct_fields_nc s) total v true (own_fields tm s)) (fun ob => Ok (hb ++ ob)))
-  | None => serialize_fields_go OP tm (Rd k) s (struct_fields_nc s) total v true (own_fields tm s)
-  end).
-Proof. reflexivity. Qed.
-
-Lemma size_struct_S k s v : size_struct OP tm (S k) s v =
-  match base_struct tm s with
-  | Some b =>
-    bind (size_fields OP tm (Rd k) (struct_fields_nc s) v (struct_fields_nc b)) (fun hs =>
-    bind (size_fields OP tm (Rd k) (struct_fields_nc s) v (own_fields tm s)) (fun os => Ok (hs + os)))
-  | None => size_fields OP tm (Rd k) (struct_fields_nc s) v (own_fields tm s)
-  end.
-Proof. reflexivity. Qed.
-
-Lemma dec_S k t buf : dec OP tm (S k) t buf =
-  match lookup tm t with
-  | Some (DAlias _ (LInt i) _) =>
-    let x := py_from_bytes (Z.to_nat (it_size i)) (negb (it_unsigned i)) buf in
-    if base_value_bad OP (it_size i) false x then Reject else Ok (VInt x)
-  | Some (DAlias _ (LBuffer n) _) => bind (get_bytes OP buf n) (fun b => Ok (VBytes b))
-  | Some (DEnum _ b vs at_ _) =>
-    let x := py_from_bytes (Z.to_nat (it_size b)) (negb (it_unsigned b)) buf in
-    if enum_valid vs (is_bitwise at_) x then Ok (VInt x) else Reject
-  | Some (DStruct s) => dec_struct OP tm k s buf
-  | None => Crash "NameError"
-  end.
-Proof. reflexivity. Qed.
-
-Lemma dec_struct_S k s buf : dec_struct OP tm (S k) s buf =
-  match s_disp s with
-  | SdAbstract => Crash "AttributeError"
-  | _ =>
-    let allfs := struct_fields_nc s in
-    match base_struct tm s with
-    | Some b =>
-      bind (dec_header_with OP tm (Rd k) b allfs buf) (fun h =>
-      let '(e0, ws, we) := h in
-      let wbuf := zskipn ws (zfirstn we buf) in
-      bind (deserialize_loop OP tm (Rd k) s allfs (own_fields tm s) [] [] [] e0 wbuf) (fun r =>
-      Ok (VStruct (s_name s) (collect s (fst r)))))
-    | None =>
-      bind (deserialize_loop OP tm (Rd k) s allfs (own_fields tm s) [] [] [] [] buf) (fun r =>
-      Ok (VStruct (s_name s) (collect s (fst r))))
-    end
-  end.
-Proof. reflexivity. Qed.
-
-(* the factory: header at member level k1, then the chosen child's own deserialize; the lookup of the child is abstracted as `pick` *)
-Lemma decf_SS k1 t buf : exists pick : struct -> attribute -> list (string * value) -> option decl,
-  (forall a da e0 d, pick a da e0 = Some d -> In d tm) /\
-  decf OP tm (S (S k1)) t buf =
-  match lookup_struct tm t with
-  | Some a =>
-    bind (dec_header_with OP tm (Rd k1) a (struct_fields_nc a) buf) (fun h =>
-    let '(e0, _, _) := h in
-    match find_attr (s_attrs a) "discriminator" with
-    | Some da => match pick a da e0 with Some (DStruct c) => dec_struct OP tm (S k1) c buf | _ => Crash "KeyError" end
-    | None => Crash "KeyError"
-    end)
-  | None => Crash "NameError"
-  end.
-Proof.
-  eexists (fun a da e0 => _). split.
-  2: { cbn [decf]. reflexivity. }
-  intros a da e0 d H. cbv beta in H. apply find_some in H as [H _]. apply in_rev in H. apply filter_In in H as [H _]. exact H.
-Qed.
-
 Definition all_goal (k : nat) : Prop :=
   (forall t v, nu (enc OP tm k t v)) /\ (forall t v, nu (size OP tm k t v))
   /\ (forall s v, In (DStruct s) tm -> nu (enc_struct OP tm k s v)) /\ (forall s v, In (DStruct s) tm -> nu (size_struct OP tm k s v))
   /\ (forall t b, nu (dec OP tm k t b)) /\ (forall s b, In (DStruct s) tm -> nu (dec_struct OP tm k s b))
   /\ (forall t b, nu (decf OP tm k t b)).
 
-Lemma Rd_ser_ok k : all_goal k -> R_ser_ok (Rd k).
-Proof. intros [He [Hs _]]. repeat split; cbn [Rd enc_t size_t key_t]; auto. Qed.
-Lemma Rd_des_ok k : all_goal k -> R_des_ok (Rd k).
-Proof. intros [He [Hs [_ [_ [Hd [_ Hf]]]]]]. repeat split; cbn [Rd dec_t decf_t size_t key_t]; auto. Qed.
+Lemma goal_enc j : all_goal j -> forall t v, nu (enc OP tm j t v). Proof. intros H; apply H. Qed.
+Lemma goal_size j : all_goal j -> forall t v, nu (size OP tm j t v). Proof. intros H; apply H. Qed.
+Lemma goal_enc_struct j : all_goal j -> forall s v, In (DStruct s) tm -> nu (enc_struct OP tm j s v). Proof. intros H; apply H. Qed.
+Lemma goal_size_struct j : all_goal j -> forall s v, In (DStruct s) tm -> nu (size_struct OP tm j s v). Proof. intros H; apply H. Qed.
+Lemma goal_dec j : all_goal j -> forall t b, nu (dec OP tm j t b). Proof. intros H; apply H. Qed.
+Lemma goal_dec_struct j : all_goal j -> forall s b, In (DStruct s) tm -> nu (dec_struct OP tm j s b). Proof. intros H; apply H. Qed.
+Lemma goal_decf j : all_goal j -> forall t b, nu (decf OP tm j t b). Proof. intros H; apply H. Qed.
 
+Lemma rec_ser_ok j : all_goal j ->
+  R_ser_ok {| enc_t := enc OP tm j; size_t := size OP tm j; dec_t := dec OP tm j; decf_t := decf OP tm j; key_t := key OP tm j |}.
+Proof. intros [He [Hs _]]. repeat split; cbn [enc_t size_t key_t]; auto. Qed.
+Lemma rec_des_ok j : all_goal j ->
+  R_des_ok {| enc_t := enc OP tm j; size_t := size OP tm j; dec_t := dec OP tm j; decf_t := decf OP tm j; key_t := key OP tm j |}.
+Proof. intros [He [Hs [_ [_ [Hd [_ Hf]]]]]]. repeat split; cbn [dec_t decf_t size_t key_t]; auto. Qed.
+
+(* the per-struct facts of wf_schema in the shapes the member loops ask for *)
+Lemma fact_own_ser s : In (DStruct s) tm -> forallb (ser_static_ok tm s (struct_fields_nc s)) (own_fields tm s) = true.
+Proof.
+  intros Hin. pose proof (wf_layout_serialize tm s Hwf Hin) as H. unfold layout_serialize_ok in H. cbv zeta in H.
+  apply Bool.andb_true_iff in H as [H _]. unfold own_fields. apply forallb_filter. exact H.
+Qed.
+Lemma fact_base_ser s b : In (DStruct s) tm -> base_struct tm s = Some b -> forallb (ser_static_ok tm b (struct_fields_nc s)) (struct_fields_nc b) = true.
+Proof.
+  intros Hin Hb. pose proof (wf_layout_serialize tm s Hwf Hin) as H. unfold layout_serialize_ok in H. cbv zeta in H.
+  apply Bool.andb_true_iff in H as [_ H]. rewrite Hb in H. exact H.
+Qed.
+Lemma fact_own_size s : In (DStruct s) tm -> forallb (size_static_ok tm (struct_fields_nc s)) (own_fields tm s) = true.
+Proof. intros Hin. generalize (fact_own_ser s Hin). apply forallb_impl. intros f. apply ser_static_size. Qed.
+Lemma fact_base_size s b : In (DStruct s) tm -> base_struct tm s = Some b -> forallb (size_static_ok tm (struct_fields_nc s)) (struct_fields_nc b) = true.
+Proof. intros Hin Hb. generalize (fact_base_ser s b Hin Hb). apply forallb_impl. intros f. apply ser_static_size. Qed.
+Lemma fact_all_des s : In (DStruct s) tm -> forallb (des_static_ok tm (struct_fields_nc s)) (struct_fields_nc s) = true.
+Proof.
+  intros Hin. pose proof (wf_layout_deserialize tm s Hwf Hin) as H. unfold layout_deserialize_ok in H. cbv zeta in H.
+  apply Bool.andb_true_iff in H as [H _]. exact H.
+Qed.
+Lemma fact_own_des s : In (DStruct s) tm -> forallb (des_static_ok tm (struct_fields_nc s)) (own_fields tm s) = true.
+Proof. intros Hin. unfold own_fields. apply forallb_filter. apply fact_all_des. exact Hin. Qed.
+Lemma fact_base_des s b : In (DStruct s) tm -> base_struct tm s = Some b -> forallb (des_static_ok tm (struct_fields_nc s)) (struct_fields_nc b) = true.
+Proof.
+  intros Hin Hb. pose proof (wf_layout_deserialize tm s Hwf Hin) as H. unfold layout_deserialize_ok in H. cbv zeta in H.
+  apply Bool.andb_true_iff in H as [_ H]. rewrite Hb in H. exact H.
+Qed.
+
+Lemma lookup_in n d : lookup tm n = Some d -> In d tm.
+Proof. unfold lookup. intros H. exact (proj1 (find_some _ _ H)). Qed.
+Lemma find_rev_filter_in (p q : decl -> bool) d : find p (rev (filter q tm)) = Some d -> In d tm.
+Proof. intros H. apply find_some in H as [H _]. apply in_rev in H. apply filter_In in H as [H _]. exact H. Qed.
 Lemma queue_ok_nil allfs : queue_ok tm allfs [].
 Proof. constructor. Qed.
 
-Lemma nu_dec_header_with R b allfs buf : R_des_ok R -> forallb (des_static_ok tm allfs) (struct_fields_nc b) = true ->
-  nu (dec_header_with OP tm R b allfs buf).
-Proof.
-  intros HR Hb. unfold dec_header_with. cbv zeta.
-  apply nu_bind; [apply nu_deserialize_loop; [exact HR|exact Hb|apply queue_ok_nil]|]. intros; apply nu_ok.
-Qed.
-
-Lemma all_goal_O : all_goal O.
-Proof. repeat split; intros; cbn; nu_crash. Qed.
-
+Ltac refold :=
+  fold (enc OP tm) (size OP tm) (key OP tm) (dec OP tm) (decf OP tm) (enc_struct OP tm) (size_struct OP tm) (dec_struct OP tm).
+Ltac head_of t := lazymatch t with ?f _ => head_of f | _ => t end.
+(* In (DStruct s) tm from whatever produced s *)
+Ltac solve_in :=
+  first [ assumption
+        | eapply lookup_struct_in; eassumption
+        | eapply lookup_in; eassumption
+        | eapply find_rev_filter_in; eassumption ].
+Ltac solve_fact :=
+  first [ apply fact_own_ser; solve_in | eapply fact_base_ser; [solve_in|eassumption]
+        | apply fact_own_size; solve_in | eapply fact_base_size; [solve_in|eassumption]
+        | apply fact_own_des; solve_in | eapply fact_base_des; [solve_in|eassumption]
+        | apply fact_all_des; solve_in ].
 
 Lemma all_goal_all k : all_goal k.
 Proof.
   induction k as [k IH] using lt_wf_ind.
-  destruct k as [|k]; [exact all_goal_O|].
-  pose proof (IH k (Nat.lt_succ_diag_r k)) as Gk.
-  pose proof (Rd_ser_ok k Gk) as HRs. pose proof (Rd_des_ok k Gk) as HRd.
-  destruct Gk as [IHe [IHs [IHes [IHss [IHd [IHds IHf]]]]]].
-  assert (Hds : forall s b, In (DStruct s) tm -> nu (dec_struct OP tm (S k) s b)).
-  { intros s buf Hin. rewrite dec_struct_S.
-    pose proof (wf_layout_deserialize tm s Hwf Hin) as Hd. unfold layout_deserialize_ok in Hd. cbv zeta in Hd.
-    apply Bool.andb_true_iff in Hd as [Hown Hbase].
-    assert (Hown' : forallb (des_static_ok tm (struct_fields_nc s)) (own_fields tm s) = true).
-    { unfold own_fields. apply forallb_filter. exact Hown. }
-    destruct (s_disp s); try nu_crash; cbv zeta.
-    all: destruct (base_struct tm s) as [b|].
-    all: try (apply nu_bind; [apply nu_deserialize_loop; [exact HRd|exact Hown'|apply queue_ok_nil]|intros; apply nu_ok]).
-    all: apply nu_bind; [apply nu_dec_header_with; [exact HRd|exact Hbase]|]; intros [[e0 ws] we] _;
-         apply nu_bind; [apply nu_deserialize_loop; [exact HRd|exact Hown'|apply queue_ok_nil]|intros; apply nu_ok]. }
+  assert (Hlow : forall j, (j < k)%nat -> all_goal j) by exact IH.
+  Ltac lower Hlow := apply Hlow; lia.
+  Ltac leaf Hlow :=
+    first
+    [ apply nu_py_to_bytes
+    | apply nu_get_bytes
+    | eapply nu_serialize_fields_go; [apply rec_ser_ok; lower Hlow | solve_fact]
+    | eapply nu_size_fields; [apply rec_ser_ok; lower Hlow | solve_fact]
+    | eapply nu_deserialize_loop; [apply rec_des_ok; lower Hlow | solve_fact | apply queue_ok_nil]
+    | apply goal_enc; lower Hlow
+    | apply goal_size; lower Hlow
+    | apply goal_dec; lower Hlow
+    | apply goal_decf; lower Hlow
+    | apply goal_enc_struct; [lower Hlow | solve_in]
+    | apply goal_size_struct; [lower Hlow | solve_in]
+    | apply goal_dec_struct; [lower Hlow | solve_in]
+    | lazymatch goal with |- nu ?t => let h := head_of t in unfold h end ].
+  Ltac walk Hlow :=
+    repeat first
+    [ progress cbv zeta
+    | lazymatch goal with
+      | |- nu (Ok _) => apply nu_ok
+      | |- nu Reject => apply nu_reject
+      | |- nu (Crash _) => nu_crash
+      | |- nu (bind _ _) => apply nu_bind; [|intros ? _]
+      | |- nu (match ?x with _ => _ end) => first [ match goal with H : x = _ |- _ => rewrite H end | destruct x eqn:? ]
+      end
+    | leaf Hlow ].
+  destruct k as [|k].
+  { repeat split; intros; cbn; nu_crash. }
   repeat split.
-  - intros t v. rewrite enc_S. destruct v as [z|b|l|cls fs|].
-    4: { destruct (lookup_struct tm cls) as [s|] eqn:Hl; [|nu_crash]. apply IHes. exact (lookup_struct_in _ _ _ Hl). }
-    all: destruct (lookup tm t) as [[n [i|sz] c|n b0 vs at_ c|s0]|]; try nu_crash; apply nu_py_to_bytes.
-  - intros t v. rewrite size_S. destruct v as [z|b|l|cls fs|].
-    4: { destruct (lookup_struct tm cls) as [s|] eqn:Hl; [|nu_crash]. apply IHss. exact (lookup_struct_in _ _ _ Hl). }
-    all: try nu_crash; destruct (lookup tm t) as [[n [i|sz] c|n b0 vs at_ c|s0]|]; nu_crash.
-  - intros s v Hin. rewrite enc_struct_S.
-    pose proof (wf_layout_serialize tm s Hwf Hin) as Hl. unfold layout_serialize_ok in Hl. cbv zeta in Hl. apply Bool.andb_true_iff in Hl as [Hown Hbase].
-    assert (Hown' : forallb (ser_static_ok tm s (struct_fields_nc s)) (own_fields tm s) = true).
-    { unfold own_fields. apply forallb_filter. exact Hown. }
-    apply nu_bind; [apply IHss; exact Hin|]. intros total _.
-    destruct (base_struct tm s) as [b|].
-    + apply nu_bind; [apply nu_serialize_fields_go; assumption|]. intros hb _.
-      apply nu_bind; [apply nu_serialize_fields_go; assumption|]. intros; apply nu_ok.
-    + apply nu_serialize_fields_go; assumption.
-  - intros s v Hin. rewrite size_struct_S.
-    pose proof (wf_layout_serialize tm s Hwf Hin) as Hl. unfold layout_serialize_ok in Hl. cbv zeta in Hl. apply Bool.andb_true_iff in Hl as [Hown Hbase].
-    assert (Hown' : forallb (size_static_ok tm (struct_fields_nc s)) (own_fields tm s) = true).
-    { unfold own_fields. apply forallb_filter. revert Hown. apply forallb_impl. intros f. apply ser_static_size. }
-    destruct (base_struct tm s) as [b|].
-    + apply nu_bind; [apply nu_size_fields; [exact HRs|]|].
-      * revert Hbase. apply forallb_impl. intros f. apply ser_static_size.
-      * intros hs _. apply nu_bind; [apply nu_size_fields; assumption|]. intros; apply nu_ok.
-    + apply nu_size_fields; assumption.
-  - intros t buf. rewrite dec_S.
-    destruct (lookup tm t) as [[n [i|sz] c|n b0 vs at_ c|s]|] eqn:Hl; try nu_crash.
-    + cbv zeta. destruct (base_value_bad OP (it_size i) false _); nu_crash.
-    + apply nu_bind; [apply nu_get_bytes|intros; apply nu_ok].
-    + cbv zeta. destruct (enum_valid vs (is_bitwise at_) _); nu_crash.
-    + apply IHds. unfold lookup in Hl. exact (proj1 (find_some _ _ Hl)).
-  - exact Hds.
-  - intros t buf. destruct k as [|k1]; [cbn; nu_crash|].
-    destruct (decf_SS k1 t buf) as [pick [Hpick ->]].
-    destruct (lookup_struct tm t) as [a|] eqn:Hl; [|nu_crash].
-    pose proof (lookup_struct_in _ _ _ Hl) as Hin.
-    pose proof (wf_layout_deserialize tm a Hwf Hin) as Hd. unfold layout_deserialize_ok in Hd. cbv zeta in Hd.
-    apply Bool.andb_true_iff in Hd as [Hall _].
-    assert (Gk1 : all_goal k1) by (apply IH; lia).
-    apply nu_bind; [apply nu_dec_header_with; [exact (Rd_des_ok k1 Gk1)|exact Hall]|]. intros [[e0 ws] we] _.
-    destruct (find_attr (s_attrs a) "discriminator") as [da|]; [|nu_crash].
-    destruct (pick a da e0) as [[| |c]|] eqn:Hp; try nu_crash.
-    apply IHds. exact (Hpick _ _ _ _ Hp).
+  - intros t v. cbn [enc]. refold. walk Hlow.
+  - intros t v. cbn [size]. refold. walk Hlow.
+  - intros s v Hin. cbn [enc_struct]. refold. walk Hlow.
+  - intros s v Hin. cbn [size_struct]. refold. walk Hlow.
+  - intros t b. cbn [dec]. refold. walk Hlow.
+  - intros s b Hin. cbn [dec_struct]. refold. walk Hlow.
+  - intros t b. destruct k as [|k1]; [cbn; nu_crash|]. cbn [decf]. refold. walk Hlow.
 Qed.
 
 Theorem codecs_no_unsupported_all fuel t v b :
